@@ -92,6 +92,9 @@ class EG:
                 self.feats.add("mathml_function_of_negative_value")
             u = ["/", x, ["+", ["num", 1.0], ["*", x, x]]]
             f = d(st.sampled_from(sorted(FN1)))
+            if "mathml_function_nested" in self.feats and d(st.booleans()):
+                # the functions a code printer has no name for and has to express through others
+                f = d(st.sampled_from(["sec", "csc", "cot", "sech", "csch", "coth", "arcsec", "arccsc", "arccot", "arcsech", "arccsch", "arccoth"]))
             shift = FN1[f][1]
             if len(FN1[f]) > 2:
                 u = ["*", ["num", FN1[f][2]], u]
